@@ -725,16 +725,28 @@ def evaluate_persist(scn: dict, order: list, memo: dict | None = None) -> dict:
     trace: list = []
     waited = 0
     failed = incomplete = False          # safety findings and completeness findings are reported independently
-    db = IdentityDatabase(":memory:")
-    db.open()
+    subst = scn.get("via") == "substantiate"
+    if subst:
+        head = head.replace("add_credential on a shared IdentityDatabase", "IdentityManager.substantiate, one token per call")
+    if subst:
+        from ipv8.attestation.identity.manager import IdentityManager  # noqa: PLC0415
+        im = IdentityManager(":memory:")
+        db = im.database
+    else:
+        db = IdentityDatabase(":memory:")
+        db.open()
     try:
-        pm = PseudonymManager(db, public_key=mat.pub)
+        pm = im.get_pseudonym(mat.pub) if subst else PseudonymManager(db, public_key=mat.pub)
         pm.tree.unchained_max_size = cap
         for k, it in enumerate(offered):
             tok = make_token(it, mat)
             before_wait = len(pm.tree.unchained)
             try:
-                pm.add_credential(tok, mat.dummy_md)
+                if subst:
+                    # a peer discloses this one token of the pseudonym (no metadata, no attestations)
+                    im.substantiate(mat.pub, b"", it.wire, b"", b"")
+                else:
+                    pm.add_credential(tok, mat.dummy_md)
             except Exception as e:  # noqa: BLE001
                 viol.append((f"exception:add_credential:{type(e).__name__}:{it.cls}",
                              head + f"add_credential({it.label}) after {labels[:k]} raised {type(e).__name__}: {e}",
@@ -769,6 +781,8 @@ def evaluate_persist(scn: dict, order: list, memo: dict | None = None) -> dict:
                              f"there (get_root_path: {[bool(again.tree.get_root_path(stored[h])) for h in sorted(loose)]}"
                              f"); the live tree held {_names(pm.tree.elements.keys(), name_of)}", pfx))
             missing = exp.contained - have
+            if subst:
+                missing = set()      # substantiate keeps disclosed tokens in memory only: completeness is not demanded
             if missing and exp.max_waiting <= cap and not incomplete:
                 incomplete = True
                 first: dict = {}
@@ -1125,6 +1139,9 @@ def build_scenarios(ctx: core.Ctx) -> tuple[list[dict], dict]:
                     "database": "real IdentityDatabase(':memory:'), shared by the live and the reloaded manager"}
     for p in shapes(b["persist"]["labelled_n_max"], b["persist"]["unlabelled_n_max"]):
         scns.append(scenario("persist", cv, owner, foreign, p))
+    # the same restarts when the tokens of a (foreign) pseudonym arrive through IdentityManager.substantiate
+    for p in shapes(4 if T else 3, 5 if T else 4):
+        scns.append(scenario("persist-subst", cv, owner, foreign, p, via="substantiate"))
     for n in range(1, b["persist"]["one_intruder_n_max"] + 1):
         for p in unlabelled_shapes(n):
             for e in extras_for(p):
